@@ -125,6 +125,8 @@ func allSpecs1(strat string) []spec {
 				}
 				add("md5", "wrong-value")
 				add("md5", "wrong-value+company")
+				add("md5", "wrong-value+empty-body")
+				add("md5", "wrong-value+final-chunk-alone")
 				if mode == "signed" {
 					for _, f := range flipsPlain {
 						add("sha256", f)
@@ -139,6 +141,8 @@ func allSpecs1(strat string) []spec {
 						}
 						add("hdr-"+a, "wrong-value")
 						add("hdr-"+a, "wrong-value+company")
+						add("hdr-"+a, "wrong-value+empty-body")
+						add("hdr-"+a, "wrong-value+final-chunk-alone")
 					}
 				}
 				if mode == "chunked-tr" || mode == "unsigned-tr" {
@@ -148,6 +152,8 @@ func allSpecs1(strat string) []spec {
 						}
 						add("tr-"+a, "wrong-value")
 						add("tr-"+a, "wrong-value+company")
+						add("tr-"+a, "wrong-value+empty-body")
+						add("tr-"+a, "wrong-value+final-chunk-alone")
 					}
 				}
 				if mode == "chunked" || mode == "chunked-tr" {
@@ -398,10 +404,27 @@ func build(s spec, r *rand.Rand, thorough bool) *plan {
 			size = 3
 		}
 	}
+	// shapes in which the end of the body reaches the server in a read of its own (no data, only io.EOF): an empty
+	// body, and an aws-chunked stream whose first chunk ends exactly where the server's 8 KiB pre-read ends, so
+	// that the final 0-size chunk is decoded separately
+	if strings.HasSuffix(s.corr, "+empty-body") {
+		size, sizes = 0, []int{1}
+	}
+	if strings.HasSuffix(s.corr, "+final-chunk-alone") {
+		switch s.mode {
+		case "chunked", "chunked-tr":
+			size = 8192 - 87 // "1fa9;chunk-signature=<64 hex>\r\n" is 87 bytes
+		case "unsigned-tr":
+			size = 8192 - 6 // "1ffa\r\n"
+		default:
+			size = 8192
+		}
+		sizes = []int{size}
+	}
 	payload := make([]byte, size)
 	r.Read(payload)
 	// never end on a zero byte: keeps "zero padded" distinguishable from "equal"
-	if payload[size-1] == 0 {
+	if size > 0 && payload[size-1] == 0 {
 		payload[size-1] = 0xA5
 	}
 	chunks := chunkList(size, sizes)
@@ -425,7 +448,12 @@ func build(s spec, r *rand.Rand, thorough bool) *plan {
 	p.ctl = base
 	bad := base
 
-	other := flipAt(payload, r.Intn(size))
+	var other []byte
+	if size == 0 {
+		other = []byte("other bytes")
+	} else {
+		other = flipAt(payload, r.Intn(size))
+	}
 	flipOff := -1
 	switch s.corr {
 	case "flip-first":
@@ -464,7 +492,7 @@ func build(s spec, r *rand.Rand, thorough bool) *plan {
 			}
 			bad.mutate = func(enc []byte) []byte { return flipAt(enc, encOff(enc, flipOff)) }
 		}
-	case s.corr == "wrong-value", s.corr == "wrong-value+company":
+	case strings.HasPrefix(s.corr, "wrong-value"):
 		if s.corr == "wrong-value+company" {
 			// the other integrity assertions the mode admits are sent too, and are TRUE for the body: one false
 			// assertion must refuse the upload however many true ones accompany it
@@ -1127,7 +1155,9 @@ func Run(c *ev.Ctx) int {
 	otmp := allSpecs("otmp", reps)
 	nootmp := allSpecs("nootmp", reps)
 	if !c.Thorough() {
-		otmp = selectQuick(c, otmp, true, 200, func(s spec) bool { return strings.HasSuffix(s.corr, "+company") })
+		otmp = selectQuick(c, otmp, true, 200, func(s spec) bool {
+			return strings.HasSuffix(s.corr, "+company") || strings.HasSuffix(s.corr, "+empty-body") || strings.HasSuffix(s.corr, "+final-chunk-alone")
+		})
 		nootmp = selectQuick(c, nootmp, false, 40, func(s spec) bool {
 			return s.field == "declen" || s.field == "chunksig" && strings.Contains(s.corr, "+")
 		})
